@@ -78,6 +78,26 @@ class World:
         self.cutoff = cutoff
         self.obj = Symfc(crystal.atoms(), cutoff=dict(cutoff))
         self.np_rng = np.random.default_rng(rng.getrandbits(32))
+        self._bcache = {}
+        self._donor = None
+
+    def basis_for(self, order, tok):
+        """basis set of this crystal for (order, cutoff token), built independently of the object under test"""
+        from . import physics as ph
+        key = (order, tok)
+        if key not in self._bcache:
+            self._bcache[key] = ph.basis_cls(order)(self.crystal.atoms(), cutoff=None if tok is None else tok / 1000.0).run()
+        return self._bcache[key]
+
+    def donor(self):
+        """another Symfc object on the same supercell with DIFFERENT cutoffs, all basis sets computed"""
+        from symfc import Symfc
+        if self._donor is None:
+            cut = {k: (None if self.cutoff.get(k) is not None else 25.0 + k) for k in (2, 3, 4)}
+            d = Symfc(self.crystal.atoms(), cutoff=dict(cut))
+            d.compute_basis_set(max_order=4)
+            self._donor = (d, {k: (None if v is None else int(round(v * 1000))) for k, v in cut.items()})
+        return self._donor
 
     def new_array(self, shape):
         tok = self.next_id
@@ -109,8 +129,8 @@ def corr_api(rng, drv, n_hist=12, hist_len=7) -> Result:
             ops_json, impl_steps = [], []
             basis_tokens = {}      # id(basis object) -> model token dict
             for step in range(hist_len):
-                kind = rng.choices(["setDisp", "setForces", "computeBasis", "solve", "run"],
-                                   weights=[2, 2, 3, 5, 1])[0]
+                kind = rng.choices(["setDisp", "setForces", "computeBasis", "solve", "run", "setBasis"],
+                                   weights=[2, 2, 3, 5, 1, 1])[0]
                 if step == 0 and rng.random() < 0.7:
                     kind = "setDisp"
                 if step == 1 and rng.random() < 0.7:
@@ -134,6 +154,11 @@ def corr_api(rng, drv, n_hist=12, hist_len=7) -> Result:
                             w.obj.forces = w.arrays[tok]
                             w.forces_tok = tok
                         ops_json.append({"t": kind, "id": tok, "shape": shape})
+                    elif kind == "setBasis":
+                        donor, dtok = w.donor()
+                        keys = sorted(donor.basis_set.keys())
+                        ops_json.append({"t": kind, "dict": [{"key": k, "order": k, "cfgId": 1, "cutoff": dtok[k]} for k in keys]})
+                        w.obj.basis_set = dict(donor.basis_set)
                     elif kind == "computeBasis":
                         ops_json.append({"t": kind, "max_order": mo, "orders": od})
                         w.obj.compute_basis_set(max_order=mo, orders=od)
@@ -154,6 +179,8 @@ def corr_api(rng, drv, n_hist=12, hist_len=7) -> Result:
                 impl_steps.append({"result": exc or "ok",
                                    "fc_keys": sorted(w.obj.force_constants.keys()),
                                    "basis_keys": sorted(w.obj.basis_set.keys()),
+                                   "basis_cut": {k: (None if b._fc_cutoff is None else int(round(b._fc_cutoff._cutoff * 1000)))
+                                                 for k, b in w.obj.basis_set.items()},
                                    "fc_ids": {k: id(v) for k, v in w.obj.force_constants.items()}})
                 if exc == "linalg":
                     break
@@ -172,6 +199,12 @@ def corr_api(rng, drv, n_hist=12, hist_len=7) -> Result:
                 res.count("result_" + a["result"].split(":")[0])
                 mk = sorted(e["key"] for e in b["state"]["fc"])
                 mb = sorted(e["key"] for e in b["state"]["basis"])
+                mcut = {e["key"]: e["val"]["cutoff"] for e in b["state"]["basis"]}
+                if a["result"] == b["result"] and a["fc_keys"] == mk and a["basis_keys"] == mb and a["basis_cut"] != mcut:
+                    res.fail("basis sets held by the object were built with other cutoffs than the model says",
+                             step=i, ops=ops_json[: i + 1], impl=a["basis_cut"], model=mcut)
+                    ok = False
+                    break
                 if a["result"] != b["result"] or a["fc_keys"] != mk or a["basis_keys"] != mb:
                     res.fail("API step differs", step=i, ops=ops_json[: i + 1], impl=a["result"], model=b["result"],
                              impl_fc_keys=a["fc_keys"], model_fc_keys=mk, impl_basis=a["basis_keys"], model_basis=mb)
@@ -189,7 +222,7 @@ def corr_api(rng, drv, n_hist=12, hist_len=7) -> Result:
             for ent in final:
                 v = ent["val"]
                 orders = tuple(v["orders"])
-                bases = [w.obj.basis_set[b["order"]] for b in v["bases"]]
+                bases = [w.basis_for(b["order"], b["cutoff"]) for b in v["bases"]]
                 d = w.arrays[v["disp"]]
                 f = w.arrays[v["forces"]]
                 try:
